@@ -14,6 +14,8 @@ for (pid, v), (owner, what, needs) in sorted(SEEDS.items()):
             "confirmation_commands": ["tools/confirmseed.sh %s %s  (scratch worktree of /repo at main: git apply; go build ./... (with and without -tags verif); go test -vet=off -count=1 $(go list ./... | grep -v log/mongo); demonstration on clean tree and with the patch)" % (pid, v)]}
     if owner == "(unobservable)":
         meta["status"] = "not observable through the stated properties (see needs_in_order_to_manifest): the change compiles, passes the suite and its demonstration fails, but what it alters is outside what the twenty properties promise; kept for the record, not counted as caught"
+    elif owner == "(missed)":
+        meta["status"] = "NOT CAUGHT by any check (see needs_in_order_to_manifest for what a workload would have to combine); kept as a known gap"
     elif owner == "(neutralised)":
         meta["status"] = "neutralised: the change compiles and passes the suite, but the property can no longer be broken this way on the repaired tree (see needs_in_order_to_manifest); kept for the record, not counted"
     else:
